@@ -9,11 +9,12 @@ func init() {
 func runC09(opt *Options) int {
 	lr := &laRun{
 		Opt:  opt,
-		Pkgs: []string{"xtype", "method", "generator", "builder", "config", "comments", "."},
+		Pkgs: []string{"xtype", "method", "generator", "builder", "config", "comments", "enum", "."},
 		Kernels: []layera.Kernel{
 			{Name: "K10.sortedmembers", Pkg: "xtype", Harness: "VerifHarness_C09_SortedMembers", Unwind: 24, ReplayTries: 12},
 			{Name: "K10.unused", Pkg: "xtype", Harness: "VerifHarness_C09_Unused", Unwind: 24, ReplayTries: 12},
 			{Name: "K10.contextdebug", Pkg: "method", Harness: "VerifHarness_C09_ContextDebug", Unwind: 32, ReplayTries: 12},
+			{Name: "K10.unknowncontexts", Pkg: "method", Harness: "VerifHarness_C09_UnknownContexts", Unwind: 64, ReplayTries: 12},
 			{Name: "K10.genmethods", Pkg: "generator", Harness: "VerifHarness_C09_GenMethods", Unwind: 24, ReplayTries: 12},
 			{Name: "K10.contextorder", Pkg: "generator", Harness: "VerifHarness_C09_ContextOrder", Unwind: 24, ReplayTries: 12},
 			{Name: "K10.renderfiles", Pkg: "generator", Harness: "VerifHarness_C09_RenderFiles", Unwind: 64, RecordJen: true, E2E: "c09"},
@@ -23,6 +24,7 @@ func runC09(opt *Options) int {
 			{Name: "K10.variablesorder", Pkg: "config", Harness: "VerifHarness_C09_VariablesOrder", Unwind: 24, E2E: "c09", Stub: []string{"(*github.com/jmattheis/goverter/pkgload.PackageLoader).GetOneRaw", "github.com/jmattheis/goverter/config.formatLineError", "github.com/jmattheis/goverter/method.Parse", "(*go/types.Var).String"}},
 			{Name: "K8.outputfile", Pkg: "config", Harness: "VerifHarness_C15_OutputFile", Unwind: 64, Stub: []string{"github.com/jmattheis/goverter/method.Parse"}, E2E: "c09"},
 			{Name: "K7.filescan", Pkg: "comments", Harness: "VerifHarness_C19_ParseDocsFiles", Unwind: 64, E2E: "c09"},
+			{Name: "K10.transformregex", Pkg: "enum", Harness: "VerifHarness_C09_TransformRegexOrder", Unwind: 64},
 			{Name: "K10.parsedocsfaults", Pkg: "comments", Harness: "VerifHarness_C09_ParseDocsFaults", Unwind: 200, E2E: "c09"},
 			{Name: "K8.defaultoutputfile", Pkg: "config", Harness: "VerifHarness_C15_DefaultOutputFile", Unwind: 64, E2E: "c09", SetInts: map[string]int{"VerifC15NameMax": 8}},
 			{Name: "K10.unknownfields", Pkg: "builder", Harness: "VerifHarness_C09_UnknownFields", Unwind: 24, ReplayTries: 12},
